@@ -13,6 +13,7 @@ import (
 	"math/rand"
 	"os"
 	"path/filepath"
+	"strings"
 	"syscall"
 	"time"
 
@@ -761,6 +762,8 @@ func (c *ImageCheck) Run() (out []Finding, inconclusive string) {
 		switch {
 		case rule == bmInconclusive:
 			return nil, what
+		case strings.HasPrefix(rule, "resume/"):
+			return []Finding{{"c08/" + rule, fmt.Sprintf("%s: %s", ctx, what)}}, ""
 		case rule != "":
 			return []Finding{{sig(rule), fmt.Sprintf("%s: %s", ctx, what)}}, ""
 		}
